@@ -63,6 +63,7 @@ type ItemSpec struct {
 	Code  string    `json:"code,omitempty"`
 	F     *Fields   `json:"fields,omitempty"`
 	Drift bool      `json:"fields_before_mutation_are_instead_set_AFTER_the_cell_was_made_and_without_Update,omitempty"` // the cell is made in the final state; afterwards the item changes to Pre and nobody asks the cell to update: it goes on showing the final text
+	Share string    `json:"is_the_same_object_as_the_other_items_marked,omitempty"` // items with the same mark are ONE object (a record reused per row): before each of their cells is made the object is set to that item's fields, and the cells made earlier are not told
 	Pre   *Fields   `json:"fields_before_mutation,omitempty"`                                                            // typed by-pointer items: created with these, mutated to F (then Update) before the judged render
 	Ptr   bool      `json:"ptr,omitempty"`
 	Inner *ItemSpec `json:"inner,omitempty"`
@@ -267,6 +268,20 @@ func (s *ItemSpec) Make() Made {
 	case "cell":
 		in := s.Inner.Make()
 		m.Item = tabular.NewCell(in.Item)
+	case "labelslice":
+		// lists whose ELEMENT type has a text method: fmt asks every element
+		m.Item = []NumLabel{MakeNumLabel(string(s.Str)), MakeNumLabel("second " + string(s.Str))}
+	case "durslice":
+		m.Item = []time.Duration{time.Second, 90 * time.Minute, time.Duration(s.Num)}
+	case "montharr":
+		m.Item = [2]time.Month{time.Month(1 + s.Num%12), time.December}
+	case "errslice":
+		m.Item = []error{fmt.Errorf("%s", string(s.Str)), nil}
+	case "stringerstruct":
+		m.Item = struct {
+			D time.Duration
+			L NumLabel
+		}{time.Duration(s.Num) * time.Millisecond, MakeNumLabel(string(s.Str))}
 	case "numlabel":
 		m.Item = MakeNumLabel(string(s.Str))
 	case "floatlabel":
@@ -609,7 +624,7 @@ func (r *R) AnyItem(fam Fam, maxAtoms, depth int) ItemSpec {
 	case 4:
 		return ItemSpec{K: "bool", Num: int64(r.Intn(2))}
 	case 5:
-		return ItemSpec{K: Pick(r, []string{"mystr", "bytes", "err", "fmtstr", "aggslice", "aggstringer", "aggarrmap", "anonG", "anonPS", "anonSE", "tplhtml", "tpljs", "tplurl", "tplattr", "tplhtml", "jsonnumber", "ifacestruct", "ifacearr", "lookS", "lookSB", "lookW", "lookH", "lookNone", "cellcycle1", "cellcycle2", "twinnameStr", "twinnameNum", "twinnameBool", "fielder", "owneritem", "cellish", "bothmarshal", "textmarshal", "numlabel", "floatlabel", "boollabel", "durmicro"}), Str: Q(r.Str(fam, maxAtoms)), Num: int64(r.Intn(3))}
+		return ItemSpec{K: Pick(r, []string{"mystr", "bytes", "err", "fmtstr", "aggslice", "aggstringer", "aggarrmap", "anonG", "anonPS", "anonSE", "tplhtml", "tpljs", "tplurl", "tplattr", "tplhtml", "jsonnumber", "ifacestruct", "ifacearr", "lookS", "lookSB", "lookW", "lookH", "lookNone", "cellcycle1", "cellcycle2", "twinnameStr", "twinnameNum", "twinnameBool", "fielder", "owneritem", "cellish", "bothmarshal", "textmarshal", "numlabel", "floatlabel", "boollabel", "durmicro", "labelslice", "durslice", "montharr", "errslice", "stringerstruct"}), Str: Q(r.Str(fam, maxAtoms)), Num: int64(r.Intn(3))}
 	case 6:
 		return ItemSpec{K: Pick(r, []string{"slice", "map", "struct", "structptr", "complex", "complex64", "fmtfloat"}), Str: Q(r.Str(FAscii, 2)), Num: int64(r.Intn(9)), Flt: 1.5}
 	case 7:
